@@ -29,6 +29,16 @@ ASSUMPTIONS = ["documents are taken from the intersection of the C01/C02/C07 spa
 FMTS = ["json", "xml", "rdf", "provn"]
 
 
+class DuckReader:
+    """a source that has read() and nothing else of the io classes (what wrappers such as tempfile's or a network
+    response look like to the library)"""
+    def __init__(self, data):
+        self._s = io.BytesIO(data) if isinstance(data, bytes) else io.StringIO(data)
+
+    def read(self, *a):
+        return self._s.read(*a)
+
+
 def produce(doc, fmt, dest, scratch):
     """Returns (artefact kind, payload) for destination kind dest."""
     if dest == "string":
@@ -198,6 +208,13 @@ def dispatch_correspondence(scratch):
     return n, bad
 
 
+def _read_tempfile(prov, data):
+    with tempfile.NamedTemporaryFile("w+b") as fh:
+        fh.write(data)
+        fh.seek(0)
+        return prov.read(fh)
+
+
 def same_xml(a, b):
     from lxml import etree
     def canon(x):
@@ -267,6 +284,10 @@ def run_doc(doc, scratch, idx):
                 "text16-stream": lambda: M.ProvDocument.deserialize(
                     source=io.TextIOWrapper(io.BytesIO(as_text.encode("utf-16")), encoding="utf-16", newline=""), format=fmt),
                 "path": lambda: M.ProvDocument.deserialize(source=p, format=fmt),
+                "duck-binary-stream": lambda: M.ProvDocument.deserialize(source=DuckReader(as_bytes), format=fmt),
+                "read-duck-binary-stream": lambda: prov.read(DuckReader(as_bytes)),
+                "read-duck-text-stream": lambda: prov.read(DuckReader(as_text)),
+                "read-tempfile": lambda: _read_tempfile(prov, as_bytes),
                 "read-text-stream": lambda: prov.read(io.StringIO(as_text)),
                 "read-binary-stream": lambda: prov.read(io.BytesIO(as_bytes)),
                 "read-path": lambda: prov.read(p),
